@@ -125,6 +125,10 @@ class Native:
         self.fn = fn
 
 
+class StepLimit(AnalysisError):
+    """The step budget of one evaluation ran out (the evaluated code loops on this input, or the budget is too small)."""
+
+
 class Partial:
     """functools.partial of an in-repo callable."""
 
@@ -214,7 +218,7 @@ class Interp:
     def _tick(self, node: ast.AST | None = None) -> None:
         self.steps += 1
         if self.steps > self.max_steps:
-            raise AnalysisError(f"abstract evaluation exceeded {self.max_steps} steps (non-terminating on the abstract domain?)")
+            raise StepLimit(f"abstract evaluation exceeded {self.max_steps} steps (non-terminating on the abstract domain?)")
 
     def _invoke(self, fn: FunctionInfo, args: list[Any], kwargs: dict[str, Any], closure_env: Env | None) -> Any:
         if fn.qualname in self.stubs:
